@@ -177,8 +177,8 @@ def _cat() -> List[Edit]:
     ]
     # ------------------------------------------------------------------ C16
     c += [
-        E("C16", "delete-ascending", "node_visitor.py", "lines_to_remove = sorted(lines_to_remove, reverse=True)", "lines_to_remove = sorted(lines_to_remove)", "BREAK", "descending"),
-        E("C16", "splice-before-first", "node_visitor.py", "                max_line = max(lines_to_remove)", "                max_line = min(lines_to_remove)", "BREAK", "splice-after-last-deleted"),
+        E("C16", "delete-ascending", "node_visitor.py", "lines_to_remove = sorted(lines_to_remove, reverse=True)", "lines_to_remove = sorted(lines_to_remove)", "BREAK", "model::splice"),
+        E("C16", "splice-before-first", "node_visitor.py", "                max_line = max(lines_to_remove)", "                max_line = min(lines_to_remove)", "BREAK", "model::splice"),
         E("C16", "apply-all-changes", "node_visitor.py", "        if changes:\n            change = changes[0]\n", "        for change in changes:\n", "BREAK", "first-change-only"),
         E("C16", "bare-ignore-inserted", "node_visitor.py", "                if error_code is not None:\n                    ignore = f\"{ignore_comment}[{error_code.name}]\"\n                else:\n                    ignore = ignore_comment", "                ignore = ignore_comment", "BREAK", "code-specific"),
     ]
@@ -270,6 +270,11 @@ def _cat() -> List[Edit]:
         E("C07", "pok-name-mismatch-accepted", "signature.py", "                    if my_param.name != their_params[i].name:\n                        return CanAssignError(\n                            f\"param name {their_params[i].name!r} does not match\"\n                            f\" {my_param.name!r}\"\n                        )\n", "", "BREAK", "unsound::"),
         E("C07", "kwonly-type-check-dropped", "signature.py", "                        tv_map = their_kwonly.get_annotation().can_assign(\n                            my_annotation, ctx\n                        )\n", "                        tv_map = {}\n", "BREAK", "unchecked-flow::into-actual-KEYWORD_ONLY"),
         E("C07", "keep-rename-filled-by-args", "signature.py", "filled_by_args", "reached_through_args", "KEEPALL"),
+        E("C16", "offset-counts-plain-errors", "node_visitor.py", "                    if additions is not None:\n                        # a change without replacement lines does not edit the file\n                        offset += len(additions) - len(linenos)", "                    offset += len(additions or []) - len(linenos)", "BREAK", "patches-equal-splices"),
+        E("C16", "patch-end-off-by-one", "node_visitor.py", "                            end_lineno + offset,", "                            end_lineno + offset - 1,", "BREAK", "patches-equal-splices"),
+        E("C16", "additions-before-first-deleted-line", "node_visitor.py", "                max_line = max(lines_to_remove)", "                max_line = min(lines_to_remove) - 1", "BREAK", "model::splice"),
+        E("C16", "second-change-applied-too", "node_visitor.py", "            change = changes[0]\n            additions = change.lines_to_add\n            if additions is not None:", "            change = changes[-1]\n            additions = change.lines_to_add\n            if additions is not None:", "BREAK", "first-change-only"),
+        E("C16", "keep-splice-by-slice-assignment", "node_visitor.py", "                lines = [*lines[:max_line], *additions, *lines[max_line:]]", "                lines = lines[:max_line] + list(additions) + lines[max_line:]", "KEEP"),
         E("C16", "keep-reversed-sorted", "node_visitor.py", "lines_to_remove = sorted(lines_to_remove, reverse=True)", "lines_to_remove = list(reversed(sorted(lines_to_remove)))", "KEEP"),
         E("C17", "keep-regex-class-order", "format_strings.py", "(?P<conversion_type>[diouxXeEfFgGcrs%ba])", "(?P<conversion_type>[abcdeEfFgGiorsuxX%])", "KEEP"),
         E("C18", "keep-sort-key-via-locals", "options.py", "        return (\n            not self.from_command_line,  # command line options first\n            self.priority,  # lower priority number first\n            -len(self.applicable_to),  # longest options first\n        )", "        return (\n            not self.from_command_line,\n            self.priority,\n            -len(self.applicable_to),\n        )", "KEEP"),
